@@ -18,6 +18,7 @@ from __future__ import annotations
 import asyncio
 import asyncio.base_events as _be
 import asyncio.events as _ev
+import gc
 import itertools
 import logging
 import math
@@ -36,13 +37,15 @@ RULE = (
     "run_forever(), T1). Ops: ['sched', now|rel|abs, ms, F|L] (schedule / schedule_relative(ms/1000 s) / schedule_absolute(now+ms) on "
     "AsyncIOThreadSafeScheduler ('ts') or AsyncIOScheduler ('plain')), ['dispose', ref, F|L] (dispose() of a not yet disposed item), "
     "['sleep', ms] (fake clock), ['start'] / ['stop'] (T0 enters run_forever / loop.stop() and wait until it returned); F = on T1, "
-    "L = posted with call_soon_threadsafe, i.e. executed on the loop thread from another loop callback; the loop is initially not "
+    "L = posted with call_soon_threadsafe, i.e. executed on the loop thread from another loop callback; 'cur' = the asyncio state of "
+    "T1 itself: none | same (T1 called asyncio.set_event_loop(<the scheduler's loop>) although the loop runs in T0) | other (another "
+    "loop is T1's current loop) | other-running (T1 is inside another running loop); the loop is initially not "
     "running, so ops before the first 'start' exercise 'loop not running'; the plain scheduler is only touched on the loop thread "
     "or while the loop is not running (an F op on a running loop is executed as L). The loop is the stdlib loop with fake time, a "
     "cooperative non-blocking selector and a cooperative self-wakeup; yield points are source lines of reactivex, "
     "asyncio/base_events.py and asyncio/events.py. Schedules are 2-thread priority schedules: an initial priority (T0 or T1 runs "
-    "whenever it can) and d priority flips at chosen steps; 'enum' runs, for ~110 enumerated programs, BOTH initial priorities and "
-    "EVERY effective position of one flip (quick) / two flips (thorough, K2 subset); 'gen' draws programs (2-9 ops with at least one schedule followed by a dispose, delays 0-5 ms, "
+    "whenever it can) and d priority flips at chosen steps; 'enum' runs, for 110 enumerated programs, BOTH initial priorities and "
+    "EVERY effective position of one flip (quick) / additionally of two flips for 34 of them (thorough); 'gen' draws programs (2-9 ops with at least one schedule followed by a dispose, delays 0-5 ms, "
     "negative abs) and <=3 flips. Oracle per run, on the sequentially consistent event log: every action start happens on T0 with "
     "the OS thread id of the running loop and get_running_loop() is the loop; start clock >= schedule-call clock + delay; NO action "
     "start after the dispose() of that item returned; a never-disposed action ran by the time the loop has run past its due time; "
@@ -113,6 +116,7 @@ class _World:
         self.loop_errors = []
         self.items = []
         self.skipped = 0
+        self.other = None
         real_once = loop._run_once
 
         def run_once():
@@ -154,11 +158,14 @@ class _World:
             loop._selector = self._real_selector
             for n in ("_write_to_self", "time", "_run_once", "call_later"):
                 loop.__dict__.pop(n, None)
+            loop.set_exception_handler(None)  # breaks the loop <-> _World reference cycle
             if loop.is_running():
                 raise HarnessError("loop still running after the run")
             loop.close()
+            if self.other is not None:
+                self.other.close()
         finally:
-            self.loop = None
+            self.loop = self.other = None
 
     # ---- T0: the loop thread -------------------------------------------------------------------
     def t0(self):
@@ -237,6 +244,28 @@ class _World:
         det.log("dret", k)
 
     def t1(self):
+        """The director.  case["cur"] says what this foreign thread's own asyncio state is: "none" (no current loop),
+        "same" (it called asyncio.set_event_loop(<the scheduler's loop>), the loop nevertheless RUNS in T0), "other" (its
+        current loop is another, idle loop), "other-running" (it is itself inside another running loop)."""
+        cur = self.case.get("cur", "none")
+        if asyncio._get_running_loop() is not None:
+            raise HarnessError("pooled worker thread still has a running loop set")
+        try:
+            if cur == "same":
+                asyncio.set_event_loop(self.loop)
+            elif cur in ("other", "other-running"):
+                self.other = asyncio.new_event_loop()
+                asyncio.set_event_loop(self.other)
+                if cur == "other-running":
+                    asyncio._set_running_loop(self.other)
+            elif cur != "none":
+                raise HarnessError(f"bad cur {cur}")
+            self._direct()
+        finally:  # pooled OS threads: leave no per-thread asyncio state behind
+            asyncio._set_running_loop(None)
+            asyncio.set_event_loop(None)
+
+    def _direct(self):
         case = self.case
         plain = case["sch"] == "plain"
         max_ms = 0
@@ -313,11 +342,17 @@ def _run(case, first, flips, n_entries=1000):
     c0 = det._clock.us
     while True:
         w = _World(case)
+        # no cyclic GC inside a run: a finalizer such as BaseEventLoop.__del__ of an earlier loop object would execute
+        # traced lines on a controlled thread at an arbitrary point and make the step numbering irreproducible
+        gc_was = gc.isenabled()
+        gc.disable()
         try:
             res = det.run_program([w.t0, w.t1], _entries(first, flips, n_entries), names=["T0-loop", "T1-director"], **RUN_KW)
         finally:
             det._clock.us = c0
             w.close()
+            if gc_was:
+                gc.enable()
         for e in w.loop_errors:
             if isinstance(e, HarnessError):
                 raise e
@@ -398,7 +433,7 @@ def _judge(case, w, res):
             late = [i for i, _, _ in ss if i > dret]
             if late:
                 return (
-                    f"start-after-dispose|{var}:dispose-{it['dwhere']}",
+                    f"start-after-dispose|{var}:dispose-{it['dwhere']}" + (f":cur-{case['cur']}" if case.get("cur", "none") != "none" else ""),
                     f"item {k} ({it['kind']} {it['ms']} ms, scheduled on the {it.get('on')} thread, loop running at schedule: {it.get('running_at_sched')}) started at event {late[0]} "
                     f"after its dispose() (called {it['dwhere']}) had returned at event {dret}",
                 ), classes
@@ -436,6 +471,7 @@ def _judge(case, w, res):
                 classes.add("marshalled")
     if w.skipped:
         classes.add("dispose-skipped")
+    classes.add(f"cur:{case.get('cur', 'none')}")
     return None, classes
 
 
@@ -565,7 +601,7 @@ def _run_all(case, K):
 # enumerated programs and generators
 # ---------------------------------------------------------------------------------------------
 def _programs():
-    """[(sch, ops, k2)]; k2 = also explored with two flips in the thorough tier."""
+    """[(sch, ops, k2[, cur])]; k2 = also explored with two flips in the thorough tier; cur = the director thread's own asyncio state."""
     S_ts = [["sched", "now", 0, "F"], ["sched", "rel", 2, "F"], ["sched", "abs", 2, "F"], ["sched", "now", 0, "L"], ["sched", "rel", 2, "L"]]
     S_f = S_ts[:3]
     D = [["dispose", 0, "F"], ["dispose", 0, "L"]]
@@ -588,6 +624,12 @@ def _programs():
     for a, b in itertools.product([S_ts[0], S_ts[1]], repeat=2):  # a neighbour that must still run
         for ref in (0, 1):
             out.append(("ts", [["start"], a, b, ["dispose", ref, "F"]], False))
+    for s in S_f:  # the foreign thread's own asyncio state: scheduler's loop as *current* loop, another loop current / running
+        for cur in ("same", "other-running"):
+            out.append(("ts", [["start"], s, D[0]], cur == "same", cur))
+            out.append(("ts", [["start"], s, ["sleep", 1], D[0]], False, cur))
+        out.append(("ts", [["start"], s, D[0]], False, "other"))
+        out.append(("ts", [s, D[0], ["start"]], False, "same"))
     S_pl = [["sched", "now", 0, "F"], ["sched", "rel", 2, "F"], ["sched", "abs", 2, "F"]]
     for s in S_pl:  # plain scheduler: before the loop starts, and on the loop thread
         out.append(("plain", [s, D[0], ["start"]], True))
@@ -601,12 +643,14 @@ def _programs():
 
 
 def _enum(tier):
-    for sch, ops, k2 in _programs():
-        yield {"sch": sch, "ops": ops, "sched": {"mode": "all", "K": 1}}
-    if tier == "thorough":
-        for sch, ops, k2 in _programs():
-            if k2:
-                yield {"sch": sch, "ops": ops, "sched": {"mode": "all", "K": 2}}
+    for K in (1, 2) if tier == "thorough" else (1,):
+        for sch, ops, k2, *cur in _programs():
+            if K == 2 and not k2:
+                continue
+            case = {"sch": sch, "ops": ops, "sched": {"mode": "all", "K": K}}
+            if cur:
+                case["cur"] = cur[0]
+            yield case
 
 
 _where = st.sampled_from(["F", "F", "L"])
@@ -637,6 +681,7 @@ def _assemble(t):
 _gen = st.fixed_dictionaries(
     {
         "sch": st.sampled_from(["ts", "ts", "ts", "plain"]),
+        "cur": st.sampled_from(["none", "none", "same", "same", "other", "other-running"]),
         "ops": st.tuples(
             st.sampled_from([True, True, False]), st.lists(_op, max_size=2), _sched_op, st.lists(_mid_op, max_size=2), _dispose_op, st.lists(_op, max_size=2)
         ).map(_assemble),
@@ -644,7 +689,7 @@ _gen = st.fixed_dictionaries(
             {
                 "mode": st.just("prio"),
                 "first": st.integers(0, 1),
-                "flips": st.lists(st.integers(0, 4095), min_size=0, max_size=3),
+                "flips": st.sampled_from([1, 1, 2, 1, 3, 2, 3, 0]).flatmap(lambda n: st.lists(st.integers(0, 4095), min_size=n, max_size=n)),
             }
         ),
     }
@@ -654,5 +699,5 @@ _gen = st.fixed_dictionaries(
 def checks(tier):
     return [
         Check("enum", run_case, cases=_enum, shards={"quick": 8, "thorough": 16}, exhaustive=True),
-        Check("gen", run_case, strategy=_gen, examples={"quick": 4000, "thorough": 16 * 12000}, shards={"quick": 8, "thorough": 16}),
+        Check("gen", run_case, strategy=_gen, examples={"quick": 4000, "thorough": 16 * 8000}, shards={"quick": 8, "thorough": 16}),
     ]
